@@ -25,6 +25,9 @@ const smtPrelude = `(set-option :print-success false)
 (set-logic ALL)
 `
 
+// idxAxiom defines the element-position function (see TB.Idx).
+const idxAxiom = "(assert (forall ((o Int) (i Int)) (! (= (idx o i) (+ o i)) :pattern ((idx o i)))))\n"
+
 // logNode is the fork tree of a function's log: entries first, then the alternatives.
 type logNode struct {
 	entries  []LogEntry
@@ -87,6 +90,9 @@ func (e *Engine) BuildScripts(fr *FuncResult, timeoutMS int, maxChecks int) []st
 	sc := e.tb.NewScript()
 	sc.Prepare(terms)
 	header := smtPrelude + sc.Header()
+	if strings.Contains(header, "(declare-fun idx ") {
+		header += idxAxiom
+	}
 	root := buildLogTree(fr.Log)
 	var scripts []string
 	writeEntry := func(sb *strings.Builder, le LogEntry, assumeOnly bool) {
@@ -219,6 +225,9 @@ func (e *Engine) StandaloneScript(o *Obl, withModel bool, vals []*Term) string {
 	}
 	sb.WriteString(smtPrelude)
 	sb.WriteString(sc.Header())
+	if strings.Contains(sc.Header(), "(declare-fun idx ") {
+		sb.WriteString(idxAxiom)
+	}
 	for _, t := range o.PC {
 		sb.WriteString("(assert " + sc.TermText(t) + ")\n")
 	}
